@@ -107,6 +107,7 @@ func main() {
 	// units of this property
 	var units []*Unit
 	eng.loadLocalsBaseline(*verif)
+	eng.loadShapes(*verif)
 	var fns []*types.Func
 	for fn, fc := range eng.contracts {
 		if fc.Verify && hasProp(fc.Props, prop) {
@@ -194,6 +195,13 @@ func main() {
 			engineFailures = append(engineFailures, u.name+": "+f)
 			if isStaleContractMsg(f) {
 				staleUnits[u.name] = f
+			}
+		}
+		for _, h := range u.newHelpers {
+			msg := fmt.Sprintf("calls %s, a function that is new since the baseline, has no contract and can not be inlined (loops): the unit can not be decided until it gets one", h)
+			if _, dup := staleUnits[u.name]; !dup {
+				staleUnits[u.name] = msg
+				engineFailures = append(engineFailures, u.name+": "+msg)
 			}
 		}
 		for _, o := range u.obls {
@@ -290,6 +298,7 @@ func main() {
 		}
 		os.MkdirAll(filepath.Dir(ledgerFile), 0o755)
 		eng.saveLocalsBaseline(*verif, fns)
+		eng.saveShapes(*verif, units)
 		data, _ := json.MarshalIndent(ls, "", " ")
 		os.WriteFile(ledgerFile, append(data, '\n'), 0o644)
 		ledger = map[string]bool{}
@@ -328,6 +337,17 @@ func main() {
 			continue
 		}
 		if !inLedger {
+			// where the property's claim IS the safety sweep of the function (contract clause "safety <prop>",
+			// C19: no panic and bounded allocation for every input), a refuted safety obligation at a
+			// new or rewritten expression of such a function is a violation in its own right
+			if !l.OK && l.Status == "sat" && isSafetyName(n) && l.Fail != nil && l.Fail.Unit != nil && l.Fail.Unit.fc != nil &&
+				l.Fail.Unit.fc.HasSafety && hasProp(l.Fail.Unit.fc.Safety, prop) {
+				if _, staleU := staleUnits[l.Fail.Unit.name]; !staleU {
+					claimed++
+					violations = append(violations, reportViolation(prop, replayDir, l, "safety obligation of a function whose contract claims the safety sweep for this property, at an expression the baseline does not have", eng, seed))
+					continue
+				}
+			}
 			if !l.OK && l.Status == "sat" {
 				// a refuted obligation at a site the unchanged tree does not have: a violation
 				// only if the refutation replays on the real code
@@ -373,6 +393,20 @@ func main() {
 			for un := range staleUnits {
 				if strings.HasPrefix(n, un+"/") {
 					stale = true
+				}
+			}
+			for _, u := range units {
+				for _, k := range u.goneLoops {
+					if strings.HasPrefix(n, fmt.Sprintf("%s/loop%d/", u.name, k)) {
+						stale = true
+						staleUnits[u.name+fmt.Sprintf("/loop%d", k)] = "the loop is gone from the body (removed or moved into a helper)"
+					}
+				}
+				for _, k := range u.goneLits {
+					if strings.HasPrefix(n, fmt.Sprintf("%s/lit%d/", u.name, k)) {
+						stale = true
+						staleUnits[u.name+fmt.Sprintf("/lit%d", k)] = "the function literal is gone from the body"
+					}
 				}
 			}
 			if stale {
@@ -650,7 +684,7 @@ func (e *Engine) lemmaUnit(prop string) (ru *Unit) {
 // isStaleContractMsg recognises engine errors that mean "the contract text does not fit the source any
 // more" (as opposed to unsupported code or an internal error).
 func isStaleContractMsg(m string) bool {
-	for _, k := range []string{"unknown name ", "is not defined in the old state", "unknown field", "no field or method", "has no field", "has no method", "has no loop", "has no literal", "no such label"} {
+	for _, k := range []string{"unknown name ", "is not defined in the old state", "in a spec expression", "unknown field", "no field or method", "has no field", "has no method", "has no loop", "has no literal", "no such label"} {
 		if strings.Contains(m, k) {
 			return true
 		}
@@ -663,7 +697,7 @@ func isSafetyName(n string) bool {
 	if i < 0 {
 		return false
 	}
-	for _, k := range []string{"bounds@", "div@", "sub@", "make@", "alloc@", "nil@", "conv@", "overflow@"} {
+	for _, k := range []string{"bounds@", "div@", "sub@", "make@", "alloc@", "nil@", "conv@", "overflow@", "lock@", "unlock@", "balance@", "lockinv@", "guard@", "guarantee@"} {
 		if strings.HasPrefix(n[i+1:], k) {
 			return true
 		}
